@@ -90,6 +90,14 @@ def stepLedger (toks : List String) : String :=
     match ofHex b, ofHex alt with
     | some b, some alt => hdrProp (lookupKey tbl) b alt
     | _, _ => "bad-op"
+  | ["attr", b, _keys] =>
+    match ofHex b with
+    | none => "bad-op"
+    | some b =>
+      match txAttributeTy.dec (lookupKey tbl) b with
+      | .ok (v, rest) => "ok " ++ txAttributeTy.show v ++ " rest=" ++ toString rest.length ++
+          (if txAttributeTy.enc v == b.take (b.length - rest.length) then " canon" else " noncanon")
+      | .error e => errStr e
   | ["blk", b, _keys] =>
     match ofHex b with
     | none => "bad-op"
